@@ -223,7 +223,11 @@ bool StringToUrlHost(const std::string &str, Url::Host &host)
             host.port = 0;
         } else {
             host.host = UrlDecode(str.substr(host_start_pose, colon_pos - host_start_pose));
-            host.port = std::stoi(str.substr(colon_pos + 1));
+            //! 端口号必须在 0~65535 之内，否则 std::stoi() 的结果会被截断成另一个端口（如 65616 变成 80，-1 变成 65535）
+            int port = std::stoi(str.substr(colon_pos + 1));
+            if (port < 0 || port > 65535)
+                return false;
+            host.port = static_cast<uint16_t>(port);
         }
     } catch (const std::exception &) {
         return false;
